@@ -15,7 +15,7 @@ CONSTANTS
   PayLens = {9}
   BatchSizes = {1, 2}
   AllowExplicit = FALSE
-INIT Init
-NEXT Next
+INIT MCInit
+NEXT MCNext
 INVARIANTS VerdictOk Refines
 CHECK_DEADLOCK FALSE
